@@ -3,6 +3,7 @@ import VM.Impl.SpecRules
 import VM.Impl.Defaults
 import VM.Impl.Simple
 import VM.Impl.SpecModel
+import VM.Spec.Locations
 import VM.Properties.C07
 import VM.Driver.SchemaFam
 import VM.Generated.SwaggerSchema
@@ -175,6 +176,21 @@ def swaggerPass (O : Oracles) (raw : JVal) : Json :=
     ("repValid", Json.bool (run Impl.Cfg.repaired opts).errors.isEmpty),
     ("explain", Json.arr explain.toArray), ("active", Json.arr (activeSwitches.map Json.str).toArray)]
 
+def hasDupStr : List String → Bool
+  | [] => false
+  | x :: xs => xs.contains x || hasDupStr xs
+
+/-- two locations walked by the default or example validator below one starting point render to the same dotted path: which of
+    them the visited set cuts off then depends on the order Go ranges over the property maps (finding of C09, order-dependent: C10) -/
+def pathCollision (v : View) : Bool :=
+  [Which.dflt, Which.exmp].any fun w =>
+    hasDupStr (v.defs.flatMap fun (n, s) => pathsOf w s ("definitions." ++ n))
+    || v.ops.any (fun o =>
+        o.params.any (fun p => match p.schema with | some s => hasDupStr (pathsOf w s p.name) | none => false)
+        || (match o.responses with
+            | some rs => rs.any fun r => match r.schema with | some s => hasDupStr (pathsOf w s r.code) | none => false
+            | none => false))
+
 def runSpecCase (j : Json) : Json :=
   let doc := getD (getD j "go" Json.null) "raw" (getD j "doc" Json.null)
   let O := mkOracles (parseOracles j)
@@ -202,6 +218,7 @@ def runSpecCase (j : Json) : Json :=
           ("warnsEq", Json.bool ((specValidate cont st).2.errors.length == r.warnings.length))]
       Json.mkObj [("cont", one true), ("stop", one false)]),
     ("localRefsOk", Json.bool localRefsOk),
+    ("pathCollision", Json.bool (pathCollision v)),
     -- the hypotheses of C07_whole_model_no_panic_exec hold for this document
     ("viewClosed", Json.bool (C07.viewClosed v0 v)),
     ("nops", Json.num (JsonNumber.fromNat v.ops.length))]
